@@ -183,7 +183,7 @@ func ruleR12(c *Ctx) {
 				}
 				return
 			}
-			if sel, ok := call.Fun.(*ast.SelectorExpr); ok && sel.Sel.Name == "restoreKey" && len(call.Args) == 1 {
+			if c.m.isRestoreCall(call) && len(call.Args) == 1 {
 				useOf(call.Args[0], "passed to restoreKey")
 			}
 			// helpers that need a non-nil reference
